@@ -946,7 +946,29 @@ func c11Run(f []string) []string {
 		// sessions.db is in state f[1], with or without administrators in the
 		// configuration; then, if start-up goes on (run() stops on an error:
 		// fatalOnError), one protected request without credentials.
-		store, usersConfigured := f[1], vutil.UnB(f[2])
+		store := f[1]
+		// The configured administrators: "0" none, "1" one with a well-formed
+		// bcrypt hash, or a list with malformed hashes (plain text after a manual
+		// reset, empty, truncated, wrong prefix), mixed and several users.
+		good := c11.users[0]
+		bad := func(name, hash string) webUser { return webUser{Name: name, PasswordHash: hash} }
+		userLists := map[string][]webUser{
+			"0":              nil,
+			"1":              {good},
+			"bad-plain":      {bad("root", "hunter2")},
+			"bad-empty":      {bad("root", "")},
+			"bad-trunc":      {bad("root", good.PasswordHash[:20])},
+			"bad-prefix":     {bad("root", "$9z$"+good.PasswordHash[4:])},
+			"mixed":          {good, bad("root", "hunter2")},
+			"mixed-badfirst": {bad("root", ""), good},
+			"several":        {good, bad("second", good.PasswordHash)},
+			"allbad2":        {bad("root", "hunter2"), bad("admin2", "$2a$10$short")},
+		}
+		configured, known := userLists[f[2]]
+		if !known {
+			panic("bad user list " + f[2])
+		}
+		usersConfigured := len(configured) > 0
 
 		c11.mu.Lock()
 		defer c11.mu.Unlock()
@@ -1001,7 +1023,7 @@ func c11Run(f []string) []string {
 		globalContext.workDir = work
 		config.Users = nil
 		if usersConfigured {
-			config.Users = c11.users
+			config.Users = append([]webUser{}, configured...)
 		}
 
 		auth, ierr := initUsers()
@@ -1011,16 +1033,20 @@ func c11Run(f []string) []string {
 				auth.Close()
 			}
 
-			return []string{"0", "-", "-"}
+			return []string{"0", "-", "-", "-"}
 		}
 		globalContext.auth = auth
+		kept := "-"
+		if auth != nil {
+			kept = vutil.Itoa(len(auth.usersList()))
+		}
 
 		r := httptest.NewRequest(http.MethodGet, "/control/status", nil)
 		rec := httptest.NewRecorder()
 		o := c11Observe(rec, r)
 		kind := o.fields(http.MethodGet, rec.Code, rec.Header(), rec.Body.String())[3]
 
-		return []string{"1", vutil.B(auth == nil), kind}
+		return []string{"1", vutil.B(auth == nil), kind, kept}
 	case "C11.wire":
 		firstRun, usersExist := vutil.UnB(f[1]), vutil.UnB(f[2])
 		method, target := vutil.Unhex(f[3]), vutil.Unhex(f[4])
@@ -1408,9 +1434,10 @@ func c11Gen(r *rand.Rand, emit vutil.Emit) {
 		emit("C11.gl", "1", "0", vutil.Hex(m), vutil.Hex(p), "none", "none", "-", "0", "-", vutil.Hex("fresh"), vutil.Hex("router.lan"))
 	}
 	for _, st := range []string{"missing", "fine", "empty", "garbage", "garbage-short", "truncated", "directory"} {
-		for range 3 {
-			emit("C11.start", st, "1")
-			emit("C11.start", st, "0")
+		for _, ul := range []string{
+			"1", "0", "bad-plain", "bad-empty", "bad-trunc", "bad-prefix", "mixed", "mixed-badfirst", "several", "allbad2",
+		} {
+			emit("C11.start", st, ul)
 		}
 	}
 	for _, v := range c11GLValues {
